@@ -26,6 +26,7 @@ import (
 	"github.com/cloudflare/pat-go/util"
 
 	"verifharness/internal/core"
+	"verifharness/internal/ref"
 )
 
 func init() {
@@ -606,6 +607,32 @@ func (w *c03World) build() {
 			return err == nil
 		}})
 	w.add(&c03Target{name: "type1.FinalizeToken", seeds: [][]byte{resp1},
+		rebuild: func(r *core.Rand) [][]byte {
+			// the honest evaluated element in its OTHER valid SEC 1 spellings (uncompressed 04||x||y, hybrid 06/07||x||y,
+			// compressed with the other sign bit), followed by the proof, at every total length around the fixed 145
+			var out [][]byte
+			x, y, ok := ref.ECDecompress(elliptic.P384(), resp1[:49])
+			if !ok {
+				return nil
+			}
+			xy := append(x.FillBytes(make([]byte, 48)), y.FillBytes(make([]byte, 48))...)
+			for _, head := range []byte{4, 6, 7, 2, 3, 0} {
+				el := append([]byte{head}, xy...)
+				if head == 2 || head == 3 || head == 0 {
+					el = el[:49]
+				}
+				full := append(clone(el), resp1[49:]...)
+				for _, l := range []int{49, 97, 98, 144, 145, 146, 150, 192, 193, 194, 241, 300} {
+					b := make([]byte, l)
+					copy(b, full)
+					if l > len(full) {
+						copy(b[len(full):], r.Bytes(l-len(full)))
+					}
+					out = append(out, b)
+				}
+			}
+			return out
+		},
 		malformed: func(r *core.Rand) [][]byte {
 			var out [][]byte
 			for _, el := range p384InvalidEncodings(r) {
